@@ -114,6 +114,12 @@ func c18Property(t *rapid.T) {
 	var hist []string
 	logf := func(f string, a ...any) { hist = append(hist, fmt.Sprintf(f, a...)) }
 	history := func() string { return "\n    " + strings.Join(hist, "\n    ") }
+	type callOpt struct {
+		o  *writer.Options
+		fo interface{}
+	}
+	var callOpts []callOpt
+	reusedCallOptions := false
 	optionedThenPlain := map[string]bool{}
 	sawOptioned := map[string]bool{}
 	doc := sbom.NewDocument()
@@ -351,20 +357,36 @@ func c18Property(t *rapid.T) {
 			}
 			i := rapid.IntRange(0, len(writers)-1).Draw(t, "w")
 			m := wmodels[i]
-			o := &writer.Options{}
-			if rapid.Bool().Draw(t, "format?") {
-				o.Format = rapid.SampledFrom([]formats.Format{fakeFormat, formats.CDX14JSON, formats.SPDX23JSON}).Draw(t, "format")
-			}
-			if rapid.Bool().Draw(t, "render?") {
-				o.RenderOptions = &native.RenderOptions{Indent: rapid.IntRange(0, 9).Draw(t, "indent")}
-			}
-			if rapid.Bool().Draw(t, "serialize?") {
-				o.SerializeOptions = &native.SerializeOptions{}
-			}
+			// a per-call option set is either fresh or one used in an earlier call (callers keep such objects around)
+			var o *writer.Options
 			var callFO interface{}
-			if rapid.Bool().Draw(t, "fo?") {
-				callFO = "call-" + rapid.SampledFrom([]string{"p", "q"}).Draw(t, "foval")
-				o.SetFormatOptions(fakeSerKey, callFO)
+			if len(callOpts) > 0 && rapid.Bool().Draw(t, "reuse") {
+				k := rapid.IntRange(0, len(callOpts)-1).Draw(t, "which")
+				o, callFO = callOpts[k].o, callOpts[k].fo
+				reusedCallOptions = true
+			} else {
+				o = &writer.Options{}
+				if rapid.Bool().Draw(t, "format?") {
+					o.Format = rapid.SampledFrom([]formats.Format{fakeFormat, formats.CDX14JSON, formats.SPDX23JSON}).Draw(t, "format")
+				}
+				if rapid.Bool().Draw(t, "render?") {
+					o.RenderOptions = &native.RenderOptions{Indent: rapid.IntRange(0, 9).Draw(t, "indent")}
+				}
+				if rapid.Bool().Draw(t, "serialize?") {
+					o.SerializeOptions = &native.SerializeOptions{}
+				}
+				if rapid.Bool().Draw(t, "fo?") {
+					callFO = "call-" + rapid.SampledFrom([]string{"p", "q"}).Draw(t, "foval")
+					o.SetFormatOptions(fakeSerKey, callFO)
+				}
+				if len(callOpts) < 3 {
+					callOpts = append(callOpts, callOpt{o: o, fo: callFO})
+				}
+			}
+			oBefore := *o
+			var roBefore native.RenderOptions
+			if o.RenderOptions != nil {
+				roBefore = *o.RenderOptions
 			}
 			used := o.Format
 			if used == "" {
@@ -373,7 +395,12 @@ func c18Property(t *rapid.T) {
 			var buf bytes.Buffer
 			calls := fs.calls
 			err := writers[i].WriteStreamWithOptions(doc, nopCloser{&buf}, o)
-			logf("writer %d.WriteStreamWithOptions(format=%q render=%+v fo=%v) -> err=%v", i, o.Format, o.RenderOptions, callFO, err)
+			logf("writer %d.WriteStreamWithOptions(format=%q render=%+v fo=%v) -> err=%v", i, oBefore.Format, oBefore.RenderOptions, callFO, err)
+			// the option set of the call belongs to the caller: it must come back as it went in
+			if o.Format != oBefore.Format || o.RenderOptions != oBefore.RenderOptions || o.SerializeOptions != oBefore.SerializeOptions || o.StoreOptions != oBefore.StoreOptions ||
+				(o.RenderOptions != nil && *o.RenderOptions != roBefore) || o.GetFormatOptions(fakeSerKey) != callFO {
+				t.Fatalf("the call changed the option set it was given (format %q -> %q, render %v -> %v)%s", oBefore.Format, o.Format, oBefore.RenderOptions, o.RenderOptions, history())
+			}
 			switch {
 			case used == "":
 				if err == nil {
@@ -440,7 +467,11 @@ func c18Property(t *rapid.T) {
 				o.SetFormatOptions(fakeUnserKey, callFO)
 			}
 			calls := fu.calls
+			roBefore := *o
 			_, err := readers[i].ParseStreamWithOptions(strings.NewReader(minimalCDX15), o)
+			if o.Format != roBefore.Format || o.UnserializeOptions != roBefore.UnserializeOptions || o.RetrieveOptions != roBefore.RetrieveOptions || o.GetFormatOptions(fakeUnserKey) != callFO {
+				t.Fatalf("ParseStreamWithOptions changed the option set it was given%s", history())
+			}
 			logf("reader %d.ParseStreamWithOptions(format=%q fo=%v) -> err=%v", i, o.Format, callFO, err)
 			if err != nil || fu.calls != calls+1 {
 				t.Fatalf("reader %d: ParseStreamWithOptions did not reach the registered driver (err=%v)%s", i, err, history())
@@ -455,6 +486,7 @@ func c18Property(t *rapid.T) {
 		},
 		"": func(t *rapid.T) { checkAll("a step") },
 	})
+	hx.ClassIf(reusedCallOptions, "per-call_option_set_reused")
 	hx.ClassIf(optionedThenPlain["writer"], "optioned_writer_then_option-less_writer")
 	hx.ClassIf(optionedThenPlain["reader"], "optioned_reader_then_option-less_reader")
 	if optionedThenPlain["writer"] || optionedThenPlain["reader"] {
